@@ -43,10 +43,13 @@ type caseA struct {
 	MEV   bool   `json:"mev_required"`
 	T     int    `json:"t"`
 	Drift bool   `json:"drift"`
+	// Dup: every snapshot entry with an account on the target chain lists a SECOND account on that
+	// chain (another address, the opposite MEV trait) after the first one
+	Dup bool `json:"dup,omitempty"`
 }
 
 func (c caseA) String() string {
-	return fmt.Sprintf("table[v0=%s v1=%s v2=%s] mev_required=%v t=+%ds drift=%v", decode(c.Opts[0]), decode(c.Opts[1]), decode(c.Opts[2]), c.MEV, c.T, c.Drift)
+	return fmt.Sprintf("table[v0=%s v1=%s v2=%s] mev_required=%v t=+%ds drift=%v", decode(c.Opts[0]), decode(c.Opts[1]), decode(c.Opts[2]), c.MEV, c.T, c.Drift) + map[bool]string{true: " two-accounts-on-target"}[c.Dup]
 }
 
 // infosFor is validator i's chain-info list as recorded in the snapshot entry.
@@ -55,11 +58,16 @@ func (c caseA) String() string {
 // account on the target chain the MEV trait (if any) sits on the other chain's
 // entry, where it must not count.
 func (e *env) infosFor(i int, o opt) []*vtypes.ExternalChainInfo {
+	if o.Acct && e.dupMode {
+		return []*vtypes.ExternalChainInfo{chainInfo(other, e.otherA[i], !o.Mev), chainInfo(target, e.snapA[i], o.Mev), chainInfo(target, e.dupAddr(i), !o.Mev)}
+	}
 	if o.Acct {
 		return []*vtypes.ExternalChainInfo{chainInfo(other, e.otherA[i], !o.Mev), chainInfo(target, e.snapA[i], o.Mev)}
 	}
 	return []*vtypes.ExternalChainInfo{chainInfo(other, e.otherA[i], o.Mev)}
 }
+
+func (e *env) dupAddr(i int) string { return ethAddrOf("c14-dup-" + e.w.Vals[i].Name) }
 
 // applyTable writes one eligibility table into ctx with keeper APIs.
 func (e *env) applyTable(ctx sdk.Context, opts [3]int, drift bool) {
@@ -156,6 +164,13 @@ func (e *env) evalA(tctx sdk.Context, d0 string, txs aTxs, c caseA) {
 	}
 	res := w.DeliverBuiltTx(ctx, tx)
 	set, why := eligible(c.Opts, c.MEV)
+	// two accounts on the target chain with different traits: which of them decides whether the validator
+	// "carries the MEV trait" is not fixed by the property, so for MEV jobs the reference only demands the
+	// base conditions of the assignee and that the SIGNED address is an account that carries the trait
+	dupMEV := c.Dup && c.MEV
+	if dupMEV {
+		set, why = eligible(c.Opts, false)
+	}
 	if set != 0 {
 		r.DistinctN++
 	}
@@ -168,7 +183,7 @@ func (e *env) evalA(tctx sdk.Context, d0 string, txs aTxs, c caseA) {
 	d1 := w.StoreDigest(ctx, world.ConsensusStore)
 	if !res.OK() {
 		e.count("a_requests_failed")
-		if set != 0 {
+		if set != 0 && !dupMEV {
 			r.Violate("assign:request-failed-with-eligible-validator", fmt.Sprintf("%s: reference eligible set %03b is not empty but the request failed: %v", c, set, res.Err), rec)
 		}
 		if d1 != d0 {
@@ -201,7 +216,15 @@ func (e *env) evalA(tctx sdk.Context, d0 string, txs aTxs, c caseA) {
 		r.Violate("assign:ineligible-assignee:"+why[ai], fmt.Sprintf("%s: assigned to v%d which is not eligible (%s); reference eligible set %03b", c, ai, why[ai], set), rec)
 		return
 	}
-	if em.AssigneeRemoteAddress != e.snapA[ai] {
+	if c.Dup && em.AssigneeRemoteAddress == e.dupAddr(ai) || c.Dup && em.AssigneeRemoteAddress == e.snapA[ai] {
+		// either account of the assignee on the target chain; for an MEV job the signed one must carry the trait
+		o := decode(c.Opts[ai])
+		signedHasMev := o.Mev == (em.AssigneeRemoteAddress == e.snapA[ai])
+		e.count("a_dup_assignments")
+		if c.MEV && !signedHasMev {
+			r.Violate("assign:signed-account-lacks-mev-trait", fmt.Sprintf("%s: MEV job assigned to v%d with signed relayer address %s, an account of v%d that does not carry the MEV trait (its other account on the chain does)", c, ai, em.AssigneeRemoteAddress, ai), rec)
+		}
+	} else if em.AssigneeRemoteAddress != e.snapA[ai] {
 		src := "neither snapshot nor current registration"
 		switch em.AssigneeRemoteAddress {
 		case e.driftA[ai]:
@@ -275,7 +298,7 @@ func (e *env) runTables(shard, nshards int, drift bool, maxFar int, times int, t
 						nt = 1
 					}
 					for t := 0; t < nt; t++ {
-						e.evalA(tctx, d0, txs, caseA{Opts: opts, MEV: mev, T: t, Drift: drift})
+						e.evalA(tctx, d0, txs, caseA{Opts: opts, MEV: mev, T: t, Drift: drift, Dup: e.dupMode})
 					}
 				}
 			}
@@ -289,16 +312,23 @@ func (e *env) partA(shard, nshards int) {
 		e.r.Extra["a_product"] = "full 48^3 tables x MEV{no,yes} x consecutive block times (6 with drifted registration, 3 with same registration)"
 		e.runTables(shard, nshards, true, 3, 6, txs)
 		e.runTables(shard, nshards, false, 3, 3, txs)
+		e.dupMode = true
+		e.runTables(shard, nshards, false, 1, 2, txs)
+		e.dupMode = false
 		return
 	}
-	e.r.Extra["a_product"] = "quick sub-product: drifted registration: the 34,992 tables in which at most one validator fails two or more of {in snapshot, account, fee, metrics} (every row for every validator) x MEV{no,yes} x 3 consecutive block times (1 when the reference eligible set is empty); same registration: the 5,832 tables in which no validator does x MEV{no,yes} x 1 block time; thorough enumerates the full 48^3 product in both modes"
+	e.r.Extra["a_product"] = "quick sub-product: drifted registration: the 34,992 tables in which at most one validator fails two or more of {in snapshot, account, fee, metrics} (every row for every validator) x MEV{no,yes} x 3 consecutive block times (1 when the reference eligible set is empty); same registration: the 5,832 tables in which no validator does x MEV{no,yes} x 1 block time, and the same 5,832 tables once more with a second account (other address, opposite MEV trait) listed after the first on the target chain in every snapshot entry; thorough enumerates the full 48^3 product in both modes and the two-account variant over the 34,992-table sub-product x 2 block times"
 	e.runTables(shard, nshards, true, 1, 3, txs)
 	e.runTables(shard, nshards, false, 0, 1, txs)
+	e.dupMode = true
+	e.runTables(shard, nshards, false, 0, 1, txs)
+	e.dupMode = false
 }
 
 func (e *env) replayA(c caseA) {
 	txs := e.buildATxs()
 	tctx := world.Fork(e.w.Root)
+	e.dupMode = c.Dup
 	e.applyTable(tctx, c.Opts, c.Drift)
 	e.evalA(tctx, e.w.StoreDigest(tctx, world.ConsensusStore), txs, c)
 }
